@@ -117,6 +117,19 @@ CHECKS = {
              "not decided in this revision (string-level reasoning is outside Verus' subset and costs minutes per 3 bytes in CBMC).",
         technique="contract-based deductive verification: verbatim extraction + Verus (Z3) with requires/ensures and a loop invariant",
     ),
+    "C03": dict(
+        category="other",
+        text="Two kernels. (1) The uniqueness oracle every in-place update trusts - RcBox::has_unique_ref, BiasedRc::get_mut / make_mut / "
+             "try_unwrap on the REAL steel-rc crate (complete proofs, shared with C05): exclusive access only for the only reference, asking never "
+             "changes the count. (2) The primitives that mutate under that oracle (hash-insert/remove/clear, hashset-insert/clear, "
+             "immutable-vector push/push-front/rest/set, string-push, string->uninterned-symbol) extracted verbatim: with a second holder alive its "
+             "view is unchanged and the result is the functional update; as sole holder the argument slot is consumed. Kernel 2 is bounded "
+             "(concrete 2-entry collections) => level `other`.",
+        design_ref="DESIGN.md section 3, C03",
+        note="Persistent collections replaced by exact finite models; the compiler's last-use analysis / MOVEREADLOCAL, im-lists internals, struct "
+             "updates, the JIT's move handling and cross-thread sharing are not covered. hash-union obligations only in the thorough tier.",
+        technique="contract-based deductive verification: Kani contract harnesses on the real steel-rc crate + verbatim-extracted primitives (CBMC)",
+    ),
 }
 
 NOT_APPLICABLE = {
